@@ -238,7 +238,11 @@ class CompilerArgs(T.MutableSequence[str]):
     @classmethod
     @lru_cache(maxsize=None)
     def _should_prepend(cls, arg: str) -> bool:
-        return arg.startswith(cls.prepend_prefixes)
+        # A prefix given as a word of its own ('-I', 'dir') is defined by the
+        # word that comes after it (see _can_dedup): moving it to the front
+        # would separate it from its operand, so it stays where it was added.
+        return arg.startswith(cls.prepend_prefixes) and \
+            arg not in cls.prepend_prefixes
 
     def to_native(self, copy: bool = False) -> T.List[str]:
         # Check if we need to add --start/end-group for circular dependencies
